@@ -130,10 +130,17 @@ pub fn exec_ext(ops: Vec<Op>, rules: Vec<usize>, iters: usize, seed: u64) -> Cas
         let mut rng = Rng::new(seed);
         let mut eg: EGraph<Main> = EGraph::default();
         let mut tracked: Vec<AppliedId> = Vec::new();
-        for op in &ops {
+        let last_union = ops.iter().rposition(|o| matches!(o, Op::Union(..)));
+        for (k, op) in ops.iter().enumerate() {
             match op {
                 Op::Add(t) => tracked.push(eg.add_expr(to_recexpr::<Main>(t))),
                 Op::Union(i, j) => {
+                    if Some(k) == last_union {
+                        // extractors are built (and dropped) right before the last union: nothing they read or leave behind
+                        // may survive into the extractors built afterwards
+                        let _ = guarded(|| Extractor::<Main, AstSize>::new(&eg, AstSize).get_best_cost::<()>(&tracked[0]));
+                        let _ = guarded(|| Extractor::<Main, OpWeighted>::new(&eg, OpWeighted).get_best_cost::<()>(&tracked[0]));
+                    }
                     let (a, b2) = (tracked[*i].clone(), tracked[*j].clone());
                     eg.union(&a, &b2);
                 }
